@@ -48,6 +48,8 @@ var bindings = []binding{
 	{"plain", map[string]string{"a": "alice", "b": "bob", "world": "world"}, map[string]string{"USD": "USD", "EUR": "EUR"}, big.NewInt(1)},
 	{"odd-forms", map[string]string{"a": "users:001:main-x_1", "b": "b", "world": "world"}, map[string]string{"USD": "USD/2", "EUR": "COIN"}, big.NewInt(1)},
 	{"big", map[string]string{"a": "alice", "b": "bob", "world": "world"}, map[string]string{"USD": "USD", "EUR": "EUR/6"}, new(big.Int).Lsh(big.NewInt(1), 70)},
+	// asset names that run into the amounts when written one after the other: "EUR1"+"5" = "EUR"+"15"
+	{"glued", map[string]string{"a": "alice", "b": "bob", "world": "world"}, map[string]string{"USD": "EUR1", "EUR": "EUR"}, big.NewInt(1)},
 }
 
 func seedBalances(bal map[string]map[string]int64, b binding) []*ledger.ChainedLog {
